@@ -188,6 +188,41 @@ func monAdmit(s *Stream, topic string) {
 	}))
 }
 
+// monLongAddress: the same clause for account addresses of every length the message validators admit (up to 255
+// bytes; the bech32 text of a long address is longer than 255 characters): the string form of the typed keys must
+// round-trip for them too.
+func monLongAddress(s *Stream, n int) {
+	s.Emit(fmt.Sprintf("mon.c18.long-address %d", n), guard(func() string {
+		owner := sdk.AccAddress(bytes.Repeat([]byte{7}, n))
+		m := aoltypes.MsgAddWriterRequest{TopicName: "t", Moniker: "m", WriterAddress: owner.String(), OwnerAddress: owner.String()}
+		if err := m.ValidateBasic(); err != nil {
+			return "pass #rejected-by-validation"
+		}
+		keys := []compkey.CompositeKey{
+			&aoltypes.OwnerCompositeKey{OwnerAddress: owner},
+			&aoltypes.TopicCompositeKey{OwnerAddress: owner, TopicName: "t"},
+			&aoltypes.WriterCompositeKey{OwnerAddress: owner, TopicName: "t", WriterAddress: owner},
+			&aoltypes.RecordCompositeKey{OwnerAddress: owner, TopicName: "t", Offset: 7},
+		}
+		outs := []compkey.CompositeKey{&aoltypes.OwnerCompositeKey{}, &aoltypes.TopicCompositeKey{}, &aoltypes.WriterCompositeKey{}, &aoltypes.RecordCompositeKey{}}
+		for i, k := range keys {
+			a, err := compkey.Encode(k)
+			if err != nil {
+				return "fail #admitted-address-not-encodable"
+			}
+			str := compkey.EncodeToString(k, aoltypes.GenesisKeySeparator)
+			if err := compkey.DecodeFromString(str, aoltypes.GenesisKeySeparator, outs[i]); err != nil {
+				return "fail #string-form-does-not-decode"
+			}
+			b, _ := compkey.Encode(outs[i])
+			if !bytes.Equal(a, b) {
+				return "fail #string-round-trip-changed-the-key"
+			}
+		}
+		return "pass"
+	}))
+}
+
 func compkeyOp(s *Stream, op string) {
 	f := strings.Fields(op)
 	switch f[0] {
@@ -214,6 +249,9 @@ func init() {
 		setConfigOnce()
 		s := NewStream(dir, "compkey")
 		defer s.Close(dir, "compkey")
+		for _, n := range []int{1, 20, 32, 150, 151, 200, 255} {
+			monLongAddress(s, n)
+		}
 		// boundary enumeration: every length 0..257 for a component in first / middle / last position
 		for l := 0; l <= 257; l++ {
 			c := bytes.Repeat([]byte{byte(l)}, l)
